@@ -94,6 +94,11 @@ func (p *networkSimplexProcessor) minSlackNonTreeEdge(edges []*graph.Edge, e *gr
 func (p *networkSimplexProcessor) feasibleTree(g *graph.DGraph) {
 	p.initLayers(g)
 	for {
+		// the tight tree is rebuilt from scratch at every round: an edge marked in an earlier round
+		// may otherwise close a cycle with a newly tight edge that reaches its far end first
+		for _, e := range g.Edges {
+			e.IsInSpanningTree = false
+		}
 		treeNodes := tightTree(g.Nodes[0], graph.EdgeSet{}, graph.NodeSet{})
 		if len(treeNodes) == len(g.Nodes) {
 			break
